@@ -1,7 +1,9 @@
 import DmrVerif.Model.Vbptc
+import DmrVerif.Model.VbptcStore
 
-/-! line-protocol operations for the variable-length BPTCs (C09).
-Bit strings are `0101…`, the empty bit string is `-`; booleans are `0` / `1`. -/
+/-! line-protocol operations for the variable-length BPTCs (C09): the stateless entry points (`vb.*`)
+and histories of calls over the objects the caller holds (`vh.*`, a `Vbptc.Store` is threaded through
+the lines).  Bit strings are `0101…`, the empty bit string is `-`; booleans are `0` / `1`. -/
 
 namespace Dmr.Driver
 open Dmr Dmr.Vbptc
@@ -40,5 +42,91 @@ def vbptcOp (op : String) (args : List String) : Option String :=
     | .error .assertion => some "ERR AssertionError"
   | "vb.crc8calc", [b] => do let b ← vbBits b; some (toString (crc8 b))
   | _, _ => none
+
+/-! ### histories (`vh.*`) -/
+
+/-- an object literal: `B:0101…` / `F:…` (bitarray / frozenbitarray, big-endian container), `L:…`
+(little-endian container), `S:…` / `T:…` (list / tuple), `A:…` (numpy integer array), `O:hex` / `Y:hex`
+(bytearray / bytes), `N:dec` -/
+def vhObj (s : String) : Option Vbptc.Obj :=
+  match s.toList with
+  | t :: ':' :: rest =>
+    let r := String.ofList rest
+    if t == 'B' || t == 'F' then (vbBits r).map (Vbptc.Obj.bits .big)
+    else if t == 'L' then (vbBits r).map (Vbptc.Obj.bits .little)
+    else if t == 'S' || t == 'T' then (vbBits r).map (Vbptc.Obj.bits .seq)
+    else if t == 'A' then (vbBits r).map Vbptc.Obj.arr
+    else if t == 'O' || t == 'Y' then (hexToBytes r).map Vbptc.Obj.octets
+    else if t == 'N' then r.toNat?.map Vbptc.Obj.num
+    else none
+  | _ => none
+
+def vhRef (s : String) : Option Nat :=
+  match s.toList with
+  | '@' :: ds => (String.ofList ds).toNat?
+  | _ => none
+
+def vhArg (s : String) : Option Vbptc.Arg :=
+  match vhRef s with
+  | some k => some (.ref k)
+  | none => (vhObj s).map .lit
+
+def vhCls : String → Option Vbptc.Cls
+  | "128" => some .c128
+  | "68" => some .c68
+  | "32" => some .c32
+  | _ => none
+
+def vhStepOf (op : String) (args : List String) : Option Vbptc.Step :=
+  match op, args with
+  | "vh.new", [o] => (vhObj o).map .new
+  | "vh.encode", [c, e, a] => do some (.encode (← vhCls c) (← vbBool e) (← vhArg a))
+  | "vh.data", [c, i, a] => do some (.data (← vhCls c) (← vbBool i) (← vhArg a))
+  | "vh.all", [c, a] => do some (.all (← vhCls c) (← vhArg a))
+  | "vh.cs", [c, a] => do some (.cs (← vhCls c) (← vhArg a))
+  | "vh.setparity", [c, e, a] => do some (.setParity (← vhCls c) (← vbBool e) (← vhArg a))
+  | "vh.make", [c] => do some (.make (← vhCls c))
+  | "vh.fill", [c, t, a] => do some (.fill (← vhCls c) (← vhRef t) (← vhArg a))
+  | "vh.cs5calc", [a] => do some (.cs5calc (← vhArg a))
+  | "vh.crc8calc", [a] => do some (.crc8calc (← vhArg a))
+  | "vh.flip", [k, i] => do some (.flip (← vhRef k) (← i.toNat?))
+  | "vh.setall", [k, v] => do some (.setAll (← vhRef k) (← vbBool v))
+  | "vh.extend", [k, b] => do some (.extend (← vhRef k) (← vbBits b))
+  | "vh.clear", [k] => do some (.clear (← vhRef k))
+  | "vh.assign", [k, b] => do some (.assign (← vhRef k) (← vbBits b))
+  | "vh.put", [k, i, v] => do some (.put (← vhRef k) (← i.toNat?) (← v.toNat?))
+  | "vh.read", [k] => do some (.read (← vhRef k))
+  | "vh.nop", [] => some (.nop false)
+  | "vh.nop+", [] => some (.nop true)
+  | _, _ => none
+
+def vhBitsStr (b : Bits) : String := if b.isEmpty then "-" else bitsToString b
+
+def vhObjStr : Vbptc.Obj → String
+  | .bits .big b => "B:" ++ vhBitsStr b
+  | .bits .little b => "L:" ++ vhBitsStr b
+  | .bits .seq b => "S:" ++ vhBitsStr b
+  | .arr b => "A:" ++ vhBitsStr b
+  | .octets d => "O:" ++ bytesToHex' d
+  | .num n => "N:" ++ toString n
+
+def vhOut : Vbptc.Out → String
+  | .val o => vhObjStr o
+  | .same k o => "=@" ++ toString k ++ " " ++ vhObjStr o
+  | .err .assertion => "ERR AssertionError"
+  | .err .attribute => "ERR AttributeError"
+  | .err .type => "ERR TypeError"
+  | .done => "ok"
+  | .void => "void"
+
+/-- one line of the stateful driver -/
+def vbptcStep (s : Vbptc.Store) (op : String) (args : List String) : Vbptc.Store × String :=
+  if op == "vh.reset" then (Vbptc.Store.empty, "ok") else
+  match vhStepOf op args with
+  | some st => let r := Vbptc.step s st; (r.1, vhOut r.2)
+  | none =>
+    match vbptcOp op args with
+    | some out => (s, out)
+    | none => (s, "ERR bad-op " ++ op)
 
 end Dmr.Driver
